@@ -102,8 +102,21 @@ func mirrorE2EMain(args mon.Args) {
 		if bindV4 {
 			conf["ipfix-addr"], conf["sflow-addr"] = "127.0.0.1", "127.0.0.1"
 		}
+		// the third party's address as the operator may write it: dotted quad, or the same IPv4 host in IPv4-mapped text
+		// (round 14, C16-m: a target classified by netip's Is4 is attached to the queue nobody fills)
+		targetText := "127.0.0.1"
+		if pi%4 == 1 || pi%4 == 2 {
+			targetText = "::ffff:127.0.0.1"
+			k := []string{"ipfix-mirror-addr", "sflow-mirror-addr"}
+			if pi%4 == 2 {
+				k = k[pi/4%2 : pi/4%2+1] // one protocol only: the two dispatchers classify on their own
+			}
+			for _, x := range k {
+				conf[x] = "\"" + targetText + "\""
+			}
+		}
 		writeConf(pdir, conf, sink.port)
-		desc := fmt.Sprintf("collector #%d sockets bound to %s ipfix-udp-size=%d sflow-udp-size=%d", pi, map[bool]string{true: "127.0.0.1 (exporters in 4-byte form)", false: "the wildcard (16-byte form)"}[bindV4], udpSizeOf["ipfix"], udpSizeOf["sflow"])
+		desc := fmt.Sprintf("collector #%d mirror target written %s, sockets bound to %s ipfix-udp-size=%d sflow-udp-size=%d", pi, targetText, map[bool]string{true: "127.0.0.1 (exporters in 4-byte form)", false: "the wildcard (16-byte form)"}[bindV4], udpSizeOf["ipfix"], udpSizeOf["sflow"])
 		col, err := startCollector(bin, pdir, nil, nil, nil)
 		if err != nil {
 			run.HarnessError(err.Error())
